@@ -3,7 +3,7 @@ From Coq Require Import String List ZArith Bool.
 From PV Require Import Xnum Select PyLib Argsort Vars Vars_proofs Task_proofs Init Init_proofs Skeleton Skeleton_proofs.
 From PV Require Import Loop.
 From PVGen Require Import GenInit Algos Expected GenStop.
-From PVBridge Require Import InitBridge AlgoBridge ProvMain LoopBridge.
+From PVBridge Require Import InitBridge AlgoBridge ProvMain ProvExample LoopBridge.
 
 Theorem C02_init_agent_regenerated : forall W dot FT fitness_of obj t d w raw draw,
   gen_init_agent W dot FT fitness_of obj t d w raw draw = option_map fst (init_agent W dot FT fitness_of obj t d w raw draw).
@@ -40,3 +40,12 @@ Print Assumptions C02_init_agent_regenerated.
 Print Assumptions C02_fitness_regenerated.
 Print Assumptions C02_cost_and_fitness_true.
 Print Assumptions C02_fitness_formula.
+
+(* non-vacuity: a concrete weight carrier, objective, mixed task (continuous + discrete), maximisation, a conforming REGENERATED skeleton that is not a known finding and
+   an operation sequence (a drawn initial solution outside the bounds, a raw candidate with +inf, a copy) meet EVERY hypothesis of the main theorem; three agents are built *)
+Theorem C02_hypotheses_satisfiable :
+  (forall l w, ex_dot (map xneg l) w = xneg (ex_dot l w)) /\ valid_task ex_task /\ valid_flat ex_task /\
+  exists sk, In sk all_skeletons /\ ~ In (sk_name sk) known_prov /\ run_ok unit ex_task sk ex_ops /\
+             length (heap unit (exec_ops unit ex_dot unit ex_fit ex_obj ex_task MAX None ex_ops)) = 3.
+Proof. exact prov_hypotheses_satisfiable. Qed.
+Print Assumptions C02_hypotheses_satisfiable.
